@@ -27,7 +27,8 @@ UNITS = ['plain', 'Hz', 'kHz', 'MHz', 'GHz', 'npscalar']
 def required(tier):
     b = {f'route:{r}': 3 for r in ROUTES}
     b.update({f'units:{u}': 3 for u in UNITS})
-    b.update({'orient:asc': 10, 'orient:desc': 10, 'twin': 5, 'df:negative-argument': 10})
+    b.update({'orient:asc': 10, 'orient:desc': 10, 'twin': 5, 'df:negative-argument': 10, 'history:retimed': 20,
+              'history:phased-time-profile': 20, 'history:smeared-injection': 20})
     return {'buckets': b, 'counters': {'invariant_evals': 100, 'roundtrip_channels': 1000}, 'checks': 500}
 
 
@@ -172,8 +173,8 @@ def run_case(c, R):
         _check_frame(stg, c, fr, R, rng)
         # short op history under the invariant
         if fr.fchans * fr.tchans <= 300000:
-            for _ in range(int(rng.integers(1, 5))):
-                op = int(rng.integers(5))
+            for _ in range(int(rng.integers(1, 6))):
+                op = int(rng.integers(8))
                 if op == 0:
                     if round(fr.df * fr.dt) >= 1:
                         fr.add_noise(x_mean=10.0)
@@ -192,13 +193,57 @@ def run_case(c, R):
                     R.check(np.array_equal(s.fs, fr.fs[l:r]) or
                             np.max(np.abs(s.fs - fr.fs[l:r])) <= 4 * np.spacing(fr.fmax),
                             'slice-axis', l=l, r=r)
-                else:
+                elif op == 4:
                     fr.copy()
+                elif op == 5:
+                    # the start time is re-assigned (directly, or by a cadence laying its frames back to back): the time GRID stays
+                    # i*dt and every derived time follows the new start
+                    R.bucket('history:retimed')
+                    if rng.random() < 0.5:
+                        fr.t_start = float(fr.t_start + rng.uniform(-5e4, 5e4))
+                    else:
+                        others = [stg.Frame(fchans=fr.fchans, tchans=int(rng.integers(1, 6)), df=fr.df, dt=fr.dt, fch1=fr.fch1,
+                                            ascending=fr.ascending, t_start=float(fr.t_start + rng.uniform(-1e4, 1e4))) for _ in range(2)]
+                        members = [others[0], fr, others[1]]
+                        slew = float(common.pick(rng, [0.0, 30.0, 1.0]))
+                        stg.Cadence(members, t_slew=slew, t_overwrite=True)
+                        for a_, b_ in zip(members[:-1], members[1:]):
+                            R.check(abs((b_.t_start - a_.t_stop) - slew) <= 8 * common.ulp(b_.t_start), 'history:cadence-spacing-not-slew',
+                                    gap=float(b_.t_start - a_.t_stop), slew=slew)
+                        for o_ in others:
+                            _derived(o_, R, 'history:')
+                elif op == 6:
+                    # a shipped time profile with a phase, evaluated on the frame's own time axis
+                    R.bucket('history:phased-time-profile')
+                    fr.add_signal(stg.constant_path(f_start=fr.get_frequency(int(rng.integers(fr.fchans))),
+                                                    drift_rate=float(rng.normal()) * fr.unit_drift_rate),
+                                  stg.sine_t_profile(period=float(rng.uniform(2, 20)) * fr.dt, phase=float(rng.uniform(0.5, 40)) * fr.dt,
+                                                     amplitude=0.5, level=1.0),
+                                  stg.gaussian_f_profile(width=3 * fr.df), stg.constant_bp_profile(level=1.0))
+                else:
+                    R.bucket('history:smeared-injection')
+                    fr.add_constant_signal(f_start=fr.get_frequency(int(rng.integers(fr.fchans))),
+                                           drift_rate=float(rng.normal()) * 3 * fr.unit_drift_rate,
+                                           level=1.0, width=2 * fr.df, f_profile_type='gaussian', doppler_smearing=True)
+                _derived(fr, R, 'history:')
     finally:
         attach.restore_all()
     R.count('invariant_evals', inv[0])
     R.check(inv[0] >= 1, 'invariant-not-evaluated')
     R.mark_nontrivial(c['fchans'] >= 2 and c['tchans'] >= 2)
+
+
+def _derived(fr, R, tag=''):
+    """Derived times follow from the grid and the CURRENT start time."""
+    m = int(fr.tchans)
+    R.check(abs(fr.obs_length - m * fr.dt) <= 2 * common.ulp(m * fr.dt), tag + 'obs_length')
+    R.check(abs(fr.t_stop - (fr.t_start + m * fr.dt)) <= 4 * common.ulp(fr.t_stop), tag + 't_stop', t_stop=float(fr.t_stop),
+            t_start=float(fr.t_start), obs=float(m * fr.dt))
+    te = np.asarray(fr.ts_ext)
+    R.check(te.shape == (m + 1,) and np.array_equal(te[:m], fr.ts)
+            and abs(te[-1] - m * fr.dt) <= 4 * common.ulp(m * fr.dt), tag + 'ts_ext', last=float(te[-1]), want=m * fr.dt)
+    prob = axes_problem(fr)
+    R.check(prob is None, tag + 'axes:' + (prob[0] if prob else 'ok'))
 
 
 def _check_frame(stg, c, fr, R, rng):
